@@ -14,6 +14,7 @@ import re
 from pathlib import Path
 
 import c08_uses
+import c08_extends
 from lib import (Check, COMMON_TRUSTED, VERIF, compile_batch, coq_bool, coq_list, coq_str, known_for, parse_nat_list,
                  run_coq_files, run_py, gen_dir)
 
@@ -1695,7 +1696,7 @@ def main(tier: str) -> int:
         "Model/Alloc.v, which property C07's trace replay ties to the repo (not re-tied here)",
         "marker counting on the real output is the direct oracle (search); it is plain Python",
     ]
-    ck.proof(extra_targets=["Run/C08.vo"])
+    ck.proof(extra_targets=["Run/C08.vo", "Run/C08Ext.vo"])
     gen_dir(PROP)
     consts = run_py(OPTRACE, {"mode": "lexer_consts"})
     # fixes/C08-reject-own-namespace-override.patch: `#override <own namespace>` is refused while the header is parsed (outside
@@ -2017,6 +2018,59 @@ def main(tier: str) -> int:
                               program=u["job"]["src"], origin=u["origin"], real=u["real"]), no_input=True)
     n_fail += u_fail
 
+    # ---- (round 5) `new .. extends ..`: every emitted JSON file (bases and children) against Model/JsonExtends.v + c08_extends.spec
+    ecases = c08_extends.cases(rng, tier)
+    eres = compile_batch([e["job"] for e in ecases], chunk=120)
+    for e, r in zip(ecases, eres):
+        e["real"] = c08_extends.real(r)
+        e["spec"] = c08_extends.spec(e["decls"])
+        e["same"] = c08_extends.same(e["real"], e["spec"])
+    efiles = []
+    per_e = 200
+    for fi, start in enumerate(range(0, len(ecases), per_e)):
+        efiles.append((f"extends_{fi}.v", c08_extends.HEADER + "Definition cases := [\n" + ";\n".join(c08_extends.case_term(e) for e in ecases[start:start + per_e])
+                       + "\n].\nEval vm_compute in ecodes cases.\n"))
+    ecodes = {}
+    for fi, (ok, out) in enumerate(run_coq_files(PROP, efiles, timeout=900, clean=False)):
+        if not ok:
+            ck.violation(dict(kind="correspondence-file-failed", file=efiles[fi][0], log=out[-3000:]), no_input=True)
+            continue
+        for j, cd in enumerate(parse_nat_list(out)):
+            ecodes[fi * per_e + j] = cd
+    e_fail = 0
+    for ei, e in enumerate(ecases):
+        if not e["same"]:
+            e_fail += 1
+            kind = c08_extends.classify(e["decls"], e["spec"], e["real"])
+            key = ("extends", kind)
+            if key not in reported and len([k for k in reported if isinstance(k, tuple) and k[0] == "extends"]) < 3:
+                reported.add(key)
+                ck.violation(dict(kind=kind, program=e["job"]["src"], header=None, namespace="TEST", pack_format=48, origin=e["origin"],
+                                  job=e["job"], ext_decls=e["decls"], model_agrees_with_real=ecodes.get(ei) == 0,
+                                  expected=dict(text=c08_extends.EXPECTED_TEXT, verdict=e["spec"]), actual=e["real"]))
+        elif ecodes.get(ei, 0) and ("extends-corr",) not in reported:
+            reported.add(("extends-corr",))
+            ck.violation(dict(kind="correspondence-differs", what="Model/JsonExtends.v (via Run/C08Ext.v ecase_code) and the real compiler disagree",
+                              code=ecodes[ei], note="1 verdict; 2 a JSON file's content; 3 number of JSON files",
+                              program=e["job"]["src"], origin=e["origin"], real=e["real"]), no_input=True)
+    n_fail += e_fail
+    ck.cov["extends"] = dict(c08_extends.coverage(ecases), disagreements=e_fail, model_cases=len(ecodes))
+
+    # ---- a list body written without `;` swallows the next statement: refused, or every definition keeps its own body (jmc d89f0a8)
+    ncases = c08_extends.nosemi_cases(rng)
+    n_bad = 0
+    for e, r in zip(ncases, compile_batch([e["job"] for e in ncases], chunk=120)):
+        why = c08_extends.nosemi_failure(r, e["decls"])
+        if why:
+            n_bad += 1
+            if ("nosemi",) not in reported:
+                reported.add(("nosemi",))
+                ck.violation(dict(kind="definition-lost-or-body-swapped", program=e["job"]["src"], header=None, namespace="TEST", pack_format=48,
+                                  origin=e["origin"], job=e["job"], nosemi_decls=e["decls"], what=why,
+                                  expected="a JMC diagnostic (the JSON body is not the end of its statement) or every definition emitted with its own body"))
+    n_fail += n_bad
+    ck.cov["json_body_without_semicolon"] = dict(programs=len(ncases), failures=n_bad)
+
     def _count(evs, pred):
         return sum((1 if pred(e) else 0) + (_count(e[6], pred) if e[0] == "decl" else 0) for e in evs)
 
@@ -2100,6 +2154,20 @@ def replay(path: str) -> int:
     r = compile_batch([job])[0]
     print("program:\n" + job["src"])
     print("expected:", rep.get("expected"))
+    if rep.get("nosemi_decls"):
+        why = c08_extends.nosemi_failure(r, rep["nosemi_decls"])
+        print("actual:", json.dumps(r.get("files") if r["ok"] else dict(exc=r.get("exc"), msg=(r.get("msg") or "")[:300]))[:1500])
+        print("FAILS: " + why if why else "holds (refused with a JMC diagnostic, or every definition has its own body)")
+        return 1 if why else 0
+    if rep.get("ext_decls"):
+        rl, sp = c08_extends.real(r), c08_extends.spec(rep["ext_decls"])
+        print("documented verdict:", json.dumps(sp)[:1500])
+        print("actual:", json.dumps(rl)[:1500])
+        if rl[0] == sp[0] == "ok":
+            for pth, v in sp[1].items():
+                if c08_extends.canon(rl[1].get(pth)) != c08_extends.canon(v):
+                    print("differs:", pth, "expected", json.dumps(v), "emitted", json.dumps(rl[1].get(pth)))
+        return 0 if c08_extends.same(rl, sp) else 1
     if rep.get("uses_evs"):
         rl, sp = c08_uses.real(rep["uses_evs"], r), c08_uses.spec(rep["uses_evs"])
         print("documented verdict:", json.dumps(sp)[:1500])
